@@ -25,6 +25,8 @@ INVALID_NUMERIC = frozenset(
     ('inf', '+inf', '-inf', 'nan', 'infinity', '+infinity', '-infinity')
 )
 
+XSD_DOUBLE_PATTERN = re.compile(r'^[+-]?(?:[0-9]+(?:\.[0-9]*)?|\.[0-9]+)(?:[Ee][+-]?[0-9]+)?$')
+
 MathArgType = Union[SupportsFloat, SupportsIndex]
 FloatArgType = Union[SupportsFloat, SupportsIndex, str]
 
@@ -294,7 +296,8 @@ def get_double(value: FloatArgType, xsd_version: str | None = None) -> float:
         if value in NUMERIC_INF_OR_NAN and (xsd_version != '1.0' or value != '+INF'):
             if value == 'NaN':
                 return math.nan  # for NaN use the predefined instance to keep identity
-        elif value.lower() in INVALID_NUMERIC:
+        elif XSD_DOUBLE_PATTERN.match(value) is None:
+            # Python accepts other forms (e.g. underscores, non-ASCII digits)
             raise ValueError(f'invalid value {value!r} for xs:double/xs:float')
     elif isinstance(value, int):
         try:
